@@ -32,6 +32,9 @@ def bind_call_args(call, fi, method=False):
             out['**'] = v
         else:
             out[k] = v
+    ren = renamed_params(fi)
+    if ren:
+        out = dict((ren.get(k, k), v) for k, v in out.items())
     return out
 
 
@@ -189,7 +192,86 @@ def is_self(t, name='self'):
     return t == ('param', name)
 
 
+_KNOWN = None
+_SIGS = None
+
+
+def _load_known():
+    global _KNOWN, _SIGS
+    if _KNOWN is None:
+        import json
+        import os
+        with open(os.path.join(os.path.dirname(os.path.abspath(__file__)), 'tables', 'known_functions.json')) as f:
+            d = json.load(f)
+        _KNOWN = set(d['functions'])
+        _SIGS = d.get('signatures', {})
+
+
+def known_functions():
+    _load_known()
+    return _KNOWN
+
+
+def renamed_params(fi):
+    """{current parameter name: name at rule-writing time} for a function whose parameters have been renamed since (same arity, same kinds); {} otherwise"""
+    _load_known()
+    old = _SIGS.get(fi.qualname)
+    if not old:
+        return {}
+    cur = list(fi.params) + list(fi.kwonly)
+    was = list(old['params']) + list(old['kwonly'])
+    if len(cur) != len(was) or len(fi.params) != len(old['params']) or bool(fi.vararg) != bool(old['vararg']) or bool(fi.kwarg) != bool(old['kwarg']):
+        return {}
+    m = dict((c, w) for c, w in zip(cur, was) if c != w)
+    if fi.vararg and old['vararg'] and fi.vararg != old['vararg']:
+        m['*' + fi.vararg] = '*' + old['vararg']
+    if fi.kwarg and old['kwarg'] and fi.kwarg != old['kwarg']:
+        m['**' + fi.kwarg] = '**' + old['kwarg']
+    return m
+
+
+def default_inline(ctx):
+    """Inline callback used by every rule unless it brings its own: calls of functions that did not exist when the rules were written (a block extracted
+    into a new private helper, module-level or method) are evaluated in place, so the rule sees the same terms and events as before the extraction.
+    Functions the rules know by name (sa/tables/known_functions.json) are never inlined here - they are anchors."""
+    known = known_functions()
+
+    def resolve(call, evaluator):
+        f = call[1]
+        fi = evaluator.fi
+        target = None
+        if f[0] == 'name':
+            target = fi.module.functions.get(f[1])
+            if target is None:
+                r = ctx.P.resolve_name(fi.module, f[1])
+                if r is not None and r[0] == 'func':
+                    target = r[1]
+        elif f[0] == 'attr' and f[1] == ('param', 'self') and fi.cls is not None:
+            m = ctx.P.lookup(fi.cls, f[2])
+            if m is not None and m.kind == 'func':
+                target = m.value
+        if target is None or target.qualname in known:
+            return None
+        ctx.functions.add(target.qualname)
+        return target
+    return resolve
+
+
 def run(ctx, fi, **kw):
+    if 'inline' not in kw:
+        kw['inline'] = default_inline(ctx)
+    if isinstance(fi, str):
+        fi = ctx.P.func(fi)
+    ren = renamed_params(fi)
+    if ren:
+        # parameters renamed since the rules were written: bind the new names to the old parameter terms (rules speak of P_('<old name>'))
+        back = dict((w, c) for c, w in ren.items())
+        bind = dict((back.get(k, k), v) for k, v in (kw.get('bind') or {}).items())
+        for c, w in ren.items():
+            key = c.lstrip('*')
+            if key not in bind:
+                bind[key] = ('param', w)
+        kw['bind'] = bind
     ev = evaluate(ctx.P, fi, **kw)
     ctx.functions.add(ev.fi.qualname)
     ctx.paths_explored += len(ev.paths)
@@ -235,6 +317,55 @@ def inline_resolver(ctx, names):
                 return fi
         return None
     return resolve
+
+
+def cond_paths(c):
+    """short-circuit evaluation paths of a condition term: [(guards, truth)] with guards = ((canonical atom, polarity), ...) in evaluation order -
+    the same decomposition the evaluator applies to the test of an if statement"""
+    from .symeval import canon_atom
+    if c[0] == 'unop' and c[1] == 'not':
+        return [(g, not t) for g, t in cond_paths(c[2])]
+    if c[0] == 'boolop':
+        stop = (c[1] == 'or')          # value at which evaluation stops
+        paths = [((), None)]
+        for op in c[2]:
+            new = []
+            for g, t in paths:
+                if t is not None and t == stop:
+                    new.append((g, t))
+                    continue
+                for g2, t2 in cond_paths(op):
+                    new.append((g + g2, t2))
+            paths = new
+        return paths
+    atom, neg = canon_atom(c)
+    if atom[0] == 'const':
+        return [((), bool(atom[1]) ^ neg)]
+    return [(((atom, not neg),), True), (((atom, neg),), False)]
+
+
+def alternatives(t, limit=64):
+    """A term with its conditional expressions resolved: [(variant without ifexp, guards)] - so that `x.append(a if c else b)` reads like
+    `if c: x.append(a) else: x.append(b)`"""
+    out = []
+
+    def rec(term, guards):
+        if len(out) >= limit:
+            return
+        first = None
+        for x in T.subterms(term):
+            if x[0] == 'ifexp':
+                first = x
+                break
+        if first is None:
+            out.append((term, guards))
+            return
+        for g, truth in cond_paths(first[1]):
+            if any((a, not pol) in guards for a, pol in g):
+                continue            # contradicts a choice already made
+            rec(T.replace(term, first, first[2] if truth else first[3]), guards + tuple(x for x in g if x not in guards))
+    rec(t, ())
+    return out
 
 
 def expr_term(ctx, fi, node, env=None):
